@@ -154,9 +154,14 @@ AuthzRequestErr(st, c, req, aud, redirSent) ==
 
 DoAuthorize(st, op) ==
   LET req == Range(op.scopes)
+      \* the resource owner may grant only some of the requested audiences (gaud; <<"*">> or absent = all of them):
+      \* the REQUESTED audience is validated against the registration, the GRANTED one is what the grant carries
+      reqAud == Range(op.aud)
+      gaud == IF "gaud" \in DOMAIN op THEN Range(op.gaud) ELSE {"*"}
+      granted == IF "*" \in gaud THEN reqAud ELSE reqAud \cap gaud
       p == [client |-> op.client, rtype |-> op.rtype, req |-> req, grant |-> Range(op.grant) \cap req,
-            aud |-> Range(op.aud), redirSent |-> op.redir = "sent", pkce |-> op.pkce]
-      e == AuthzRequestErr(st, op.client, req, p.aud, p.redirSent)
+            aud |-> granted, redirSent |-> op.redir = "sent", pkce |-> op.pkce]
+      e == AuthzRequestErr(st, op.client, req, reqAud, p.redirSent)
   IN IF st.cfg.par_enf THEN Fail(st, "invalid_request", "par_enforced")
      ELSE IF e[1] # "ok" THEN Fail(st, e[1], e[2])
      ELSE HandlerPhase(st, p)
